@@ -26,7 +26,7 @@ StreamEdits == {"hmagic", "hcrc", "hflag0", "checkReserved", "checkOther", "indi
                 \* count): TLC's integers are 32 bit wide, and the acceptor only compares for equality, so
                 \* all of them are modelled as "+ 2^30"; the realisation sets the bit the name says
                 "backwardHigh28", "backwardHigh30", "backwardHigh31", "countHigh"}
-BlockEdits == {"sizeBytePlus", "sizeByteMinus", "resv", "nfilters", "filterId", "propLen", "dict41", "dict255",
+BlockEdits == {"sizeBytePlus", "sizeByteMinus", "resv", "nfilters", "filterId", "filterIdLow21", "propLen", "dict41", "dict255",
                "dictLarger", "dictSmaller", "hpadNonzero", "hpadPlus4", "hpadPlus4Nonzero", "hpadPlus8LastNonzero", "hcrcB", "addCsize", "addUsize",
                "csizeFPlus", "csizeFMinus", "usizeFPlus", "usizeFMinus", "padNonzero", "checkValue",
                "recUnpaddedPlus1", "recUnpaddedPlus4", "recUsizePlus", "recSwap",
@@ -72,6 +72,9 @@ ApplyB(e, s, i) ==
     [] e = "resv"          -> SetB(s, i, [b EXCEPT !.resv = 4])
     [] e = "nfilters"      -> SetB(s, i, [b EXCEPT !.nfilters = 2])
     [] e = "filterId"      -> SetB(s, i, [b EXCEPT !.filterId = 3])
+    \* an unsupported multi-byte filter id whose low-order byte is that of LZMA2 (0x121, 0x2021, ...):
+    \* the realisation tries several; the header grows by the id's additional bytes
+    [] e = "filterIdLow21" -> SetB(s, i, [b EXCEPT !.filterId = 289])
     [] e = "propLen"       -> SetB(s, i, [b EXCEPT !.propLen = 2])
     \* a header longer than necessary (legal) whose additional padding carries a non-zero byte (not legal)
     [] e = "hpadPlus4Nonzero" -> Reindex(SetB(s, i, [b EXCEPT !.sizeByte = b.sizeByte + 1, !.hpadZero = FALSE]), i)
